@@ -130,6 +130,8 @@ func (r *Register) Post(w http.ResponseWriter, req *http.Request) error {
 	// Log the user in, but only if the response wasn't handled previously
 	// by a module like confirm.
 	authboss.PutSession(w, authboss.SessionKey, pid)
+	// An earlier user's second factor does not carry over to the new account
+	authboss.DelSession(w, authboss.Session2FA)
 
 	logger.Infof("registered and logged in user %s", pid)
 	ro := authboss.RedirectOptions{
